@@ -531,6 +531,12 @@ class C12Prop(DecodeProp):
                 # score +0 there), not on the scores of the levels that stay valid
                 differs = (runner.validity_pattern(core.parse_kv(g)) != runner.validity_pattern(core.parse_kv(m))
                            or g.split(" ")[0] != m.split(" ")[0])
+            elif f[0] == "BIG":
+                # huge inputs: C12 states that the decoder returns (an object and no error, or no object and an error); *which*
+                # error a rejection carries is C11's statement, which strings are accepted C07/C08's
+                dg, dm = core.parse_kv(g), core.parse_kv(m)
+                coh = lambda d: d.get("r") in ("0", "1") and ((d.get("r") == "1") == (d.get("e", "-") == "-"))
+                differs = coh(dg) != coh(dm)
             else:
                 differs = core.strip_names(g) != core.strip_names(m)
             if differs:
